@@ -617,10 +617,11 @@ def rule_wildcard(P) -> RuleResult:
     ct = _method(P, '_compile_targets')
     COMP, STAR = _S('COMPILER'), _S('ASTERISK')
     compiled = []
+    made = []
 
     def on_attr_x(base, attr, ex):
         if base == _T('attr', (COMP, 'table')) and attr == 'wildcard_columns':
-            return _SL(['first', 'second', 'third'])
+            return _SL(['First', 'second', 'SUM(x)'])
         if isinstance(base, _T) and base.op == 'new' and base.args[0] == 'Target' and attr in ('expression', 'name'):
             pos = dict(base.args[2])
             i = 0 if attr == 'expression' else 1
@@ -636,7 +637,10 @@ def rule_wildcard(P) -> RuleResult:
     def on_call_x(fn, fv, rc, args, kw, ex, node):
         last = str(fn).split('.')[-1]
         if last in ('Target', 'Column'):
-            return _T('new', (last, tuple(args), tuple(kw)))
+            node_ = _T('new', (last, tuple(args), tuple(kw)))
+            if last == 'Target':
+                made.append(node_)
+            return node_
         if last == '_compile':
             compiled.append(args[0] if args else None)
             return _S(f'C_EXPR{len(compiled)}')
@@ -650,14 +654,39 @@ def rule_wildcard(P) -> RuleResult:
             return _T('new', ('EvalTarget', tuple(args)))
         return NotImplemented
     for p_ in _E(P, on_attr=on_attr_x, on_isinstance=on_isinstance_x, on_call=on_call_x).paths(ct, {'self': COMP, ct.params[1]: STAR}):
-        want = [_T('new', ('Column', (n_,), ())) for n_ in ('first', 'second', 'third')]
+        want = [_T('new', ('Column', (n_,), ())) for n_ in ('First', 'second', 'SUM(x)')]
         got = [c for c in compiled]
+        aliased = [t_ for t_ in made if (dict(t_.args[2]).get('name') if 'name' in dict(t_.args[2]) else (t_.args[1][1] if len(t_.args[1]) > 1 else None)) is not None]
         compiled.clear()
+        made.clear()
         if got != want or p_.outcome != 'return' or not (isinstance(p_.value, _SL) and len(p_.value.items) == 3):
             res.fail(ct.fq, 'wildcard:expansion', f'`*` must expand to one target per name of the wildcard column list of the current table, '
-                     f'in order; with the list first, second, third it compiles {[repr(c)[:40] for c in got]}', loc(ct))
+                     f'in order and with exactly that name; with the list First, second, SUM(x) it compiles {[repr(c)[:40] for c in got]}', loc(ct))
+        elif aliased:
+            res.fail(ct.fq, 'wildcard:expansion', f'the targets `*` expands to are bare columns, named by the column itself; they are given the '
+                     f'alias `{aliased[0].args[1][1] if len(aliased[0].args[1]) > 1 else dict(aliased[0].args[2]).get("name")!r}`: a column whose '
+                     f'name is not all lower case (an expression text such as SUM(x) from a subquery, a user table column) is renamed', loc(ct))
         else:
             res.ok({'site': ct.fq, 'expands': 'self.table.wildcard_columns, one column target per name, in order'})
+    # a column reference resolves by exactly its name (names given by expression text keep their case)
+    cf = _method(P, '_column')
+    NODE_ = _S('COLUMN_NODE')
+    COL_ = _S('TABLE_COLUMN_SUM')
+    cols_ = _SL([('account', _S('TABLE_COLUMN_account')), ('SUM(x)', COL_)], kind='dict')
+
+    def on_attr_c(base, attr, ex):
+        if base == NODE_ and attr == 'name':
+            return 'SUM(x)'
+        if base == _T('attr', (COMP, 'table')) and attr == 'columns':
+            return cols_
+        return NotImplemented
+    for p_ in _E(P, on_attr=on_attr_c).paths(cf, {'self': COMP, cf.params[1]: NODE_}):
+        if p_.decisions or p_.outcome != 'return' or p_.value != COL_:
+            res.fail(cf.fq, 'wildcard:lookup', f'a reference to the column named `SUM(x)` (the expression-text name of a subquery column, which `*` '
+                     f'expands to) must resolve to that column of the table; it gives '
+                     f'{p_.outcome + " " + (p_.value[0] if p_.outcome == "raise" else repr(p_.value)[:40])}', loc(cf))
+        else:
+            res.ok({'site': cf.fq, 'lookup': 'by the exact name'})
     return res
 
 
@@ -773,7 +802,7 @@ def rule_partial(P) -> RuleResult:
                          f'{key}() to it, which raises {e}: the statement is rejected with {e}, not ParseError', loc(fi, c))
             else:
                 res.ok({'action': fi.fq, 'conversion': key, 'pattern': mm.group(1), 'witnesses_tried': len(pool)})
-    if n < 3:
+    if n < 2:
         raise AnalysisError(f'only {n} conversions found in BQLSemantics')
     return res
 
